@@ -568,7 +568,7 @@ type caseIn struct {
 	New       string `json:"new"`
 	Depth     int    `json:"depth"`
 	RouteSize int    `json:"routeSize,omitempty"`
-	SameEnc   bool   `json:"sameEncoding,omitempty"`
+	Alias     string `json:"alias,omitempty"`
 }
 
 // progress of the harness, watched by main: the case being run and how many have been started
@@ -643,16 +643,57 @@ func canonEnvErr(err error) string {
 	return m
 }
 
-func envCase(oldEnv, newEnv starlark.Value, sameEncoding bool) {
-	in := map[string]any{"stream": "diff.env", "old": show(oldEnv), "new": show(newEnv), "sameEncoding": sameEncoding}
-	eq, reason, d, err, panicked, supported := dawn.VerifDiffEnv(oldEnv, newEnv, sameEncoding)
-	if !supported {
-		stats["env.same_encoding_unsupported"]++
-		return
+// modelable: the value lies in the universe of the Lean model (no floats)
+func modelable(v starlark.Value) bool {
+	switch v := v.(type) {
+	case starlark.Float:
+		return false
+	case starlark.Tuple:
+		for _, e := range v {
+			if !modelable(e) {
+				return false
+			}
+		}
+	case *starlark.List:
+		for i := 0; i < v.Len(); i++ {
+			if !modelable(v.Index(i)) {
+				return false
+			}
+		}
+	case *starlark.Dict:
+		for _, kv := range v.Items() {
+			if !modelable(kv[0]) || !modelable(kv[1]) {
+				return false
+			}
+		}
 	}
+	return true
+}
+
+// envCase drives (*function).diffEnv with the two environments and their REAL encodings (the pickle text the
+// code keeps next to each decoded environment). alias names a built-in pair that the value syntax cannot express
+// (sharing, floats); it is what a replay needs to rebuild the pair.
+func envCase(oldEnv, newEnv starlark.Value, alias string) {
+	in := map[string]any{"stream": "diff.env", "old": show(oldEnv), "new": show(newEnv)}
+	if alias != "" {
+		in["alias"] = alias
+	}
+	var oldData, newData string
+	var err error
+	if oldEnv != starlark.None {
+		if oldData, err = dawn.VerifEncodeEnv(oldEnv); err != nil {
+			panic(err)
+		}
+	}
+	if newData, err = dawn.VerifEncodeEnv(newEnv); err != nil {
+		panic(err)
+	}
+	sameEncoding := oldEnv != starlark.None && oldData == newData
+	eq, reason, d, err, panicked := dawn.VerifDiffEnv(oldEnv, newEnv, oldData, newData)
 	se := "0"
 	if sameEncoding {
 		se = "1"
+		stats["env.same_encoding"]++
 	}
 	var ans string
 	switch {
@@ -672,25 +713,47 @@ func envCase(oldEnv, newEnv starlark.Value, sameEncoding bool) {
 	default:
 		ans = "changed " + hx(reason) + " " + showDiff(d)
 	}
-	oldText := show(oldEnv)
-	if oldEnv == starlark.None {
-		oldText = "none" // no record: the target has never been run
+	if modelable(oldEnv) && modelable(newEnv) {
+		oldText := show(oldEnv)
+		if oldEnv == starlark.None {
+			oldText = "none" // no record: the target has never been run
+		}
+		emitC("diff.env", "env "+se+" "+oldText+" "+show(newEnv), ans)
+	} else {
+		stats["env.judge_only"]++
 	}
-	emitC("diff.env", "env "+se+" "+oldText+" "+show(newEnv), ans)
 	stats["env.judged"]++
-	if sameEncoding {
-		// equal encodings decode to equal environments: only meaningful for equal values
-		return
-	}
-	// the reason names exactly the parts of the environment that differ
-	od, ok1 := oldEnv.(*starlark.Dict)
-	nd, ok2 := newEnv.(*starlark.Dict)
-	if !ok1 || !ok2 || panicked != "" || err != nil {
-		if ok1 && ok2 && (panicked != "" || err != nil) {
-			emitV(map[string]any{"kind": "reason", "detail": "diffEnv failed on two environment dicts: " + ans, "input": in})
+	if oldEnv == starlark.None || panicked != "" {
+		if panicked != "" {
+			emitV(map[string]any{"kind": "reason", "detail": "diffEnv panicked: " + panicked, "input": in})
 		}
 		return
 	}
+	// up to date exactly when the encodings are equal
+	if eq != sameEncoding {
+		emitV(map[string]any{"kind": "reason", "detail": fmt.Sprintf("reported up to date = %v, encodings equal = %v", eq, sameEncoding), "input": in})
+		return
+	}
+	// equal encodings decode to equal environments
+	if sameEncoding && !equal(oldEnv, newEnv) {
+		emitV(map[string]any{"kind": "encoding", "detail": "two environments that are not == have the same encoding", "input": in})
+	}
+	if sameEncoding {
+		return
+	}
+	od, ok1 := oldEnv.(*starlark.Dict)
+	nd, ok2 := newEnv.(*starlark.Dict)
+	if !ok1 || !ok2 {
+		if equal(oldEnv, newEnv) && ans != "changed-opaque" {
+			emitV(map[string]any{"kind": "reason", "detail": "environments that compare equal but are encoded differently: " + ans, "input": in})
+		}
+		return
+	}
+	if err != nil {
+		emitV(map[string]any{"kind": "reason", "detail": "diffEnv failed on two environment dicts: " + ans, "input": in})
+		return
+	}
+	// the parts that differ by ==
 	var differ []string
 	for _, k := range dawn.VerifFunctionEnvKeys() {
 		ov, oh, _ := od.Get(starlark.String(k))
@@ -699,11 +762,18 @@ func envCase(oldEnv, newEnv starlark.Value, sameEncoding bool) {
 			differ = append(differ, k)
 		}
 	}
-	if eq != (len(differ) == 0) {
-		emitV(map[string]any{"kind": "reason", "detail": fmt.Sprintf("environments reported equal = %v but parts %q differ", eq, differ), "input": in})
+	if equal(oldEnv, newEnv) {
+		// no part differs by == although the encodings differ (1 and 1.0, 0.0 and -0.0, sharing): the generic
+		// reason, and no diff
+		stats["env.equal_but_distinguishable"]++
+		if ans != "changed-opaque" {
+			emitV(map[string]any{"kind": "reason", "detail": fmt.Sprintf("the environments are == and encoded differently; expected (false, \"environment changed\", no diff), got %s", ans), "input": in})
+		}
 		return
 	}
-	if eq {
+	if len(differ) == 0 {
+		// the environments differ only in a key outside functionEnvKeys: nothing the reason could name
+		stats["env.differs_outside_keys"]++
 		return
 	}
 	var want string
@@ -720,7 +790,9 @@ func envCase(oldEnv, newEnv starlark.Value, sameEncoding bool) {
 	if reason != want {
 		emitV(map[string]any{"kind": "reason", "detail": fmt.Sprintf("reason %q, the parts that differ give %q", reason, want), "input": in})
 	}
-	if msg := judge(d, oldEnv, newEnv, 1000); msg != "" {
+	if d == nil {
+		emitV(map[string]any{"kind": "reason", "detail": "no diff shown with a reason that names parts", "input": in})
+	} else if msg := judge(d, oldEnv, newEnv, 1000); msg != "" {
 		emitV(map[string]any{"kind": "unfaithful", "detail": "diff shown with the reason: " + msg, "input": in})
 	}
 }
@@ -745,7 +817,15 @@ func main() {
 				os.Exit(2)
 			}
 			if in.Stream == "diff.env" {
-				envCase(parse(in.Old), parse(in.New), in.SameEnc)
+				if in.Alias != "" {
+					for _, ac := range envAliasCases() {
+						if ac.name == in.Alias {
+							envCase(ac.old, ac.new, ac.name)
+						}
+					}
+				} else {
+					envCase(parse(in.Old), parse(in.New), "")
+				}
 			} else {
 				diffCase(in.Stream, parse(in.Old), parse(in.New), in.Depth, in.RouteSize)
 			}
